@@ -150,6 +150,11 @@ impl ObjectWrite for Font {
             FontData::Other(ref dict) => dict.clone(),
         };
         
+        for (key, value) in self._other.iter() {
+            if dict.get(key).is_none() {
+                dict.insert(key.clone(), value.clone());
+            }
+        }
         if let Some(ref to_unicode) = self.to_unicode {
             dict.insert("ToUnicode", to_unicode.to_primitive(update)?);
         }
